@@ -90,7 +90,10 @@ def _apply_proj(base, projs):
         if p == "deref":
             continue
         if "f" in p:
-            e = ("field", e, p.get("name", p["f"]))
+            nm = p.get("name", p["f"])
+            if isinstance(nm, str) and nm.isdigit():
+                nm = int(nm)
+            e = ("field", e, nm)
         elif "downcast" in p:
             e = ("downcast", e, p["downcast"])
         elif "index" in p:
